@@ -10,14 +10,9 @@
 (* The scope names the property.  Ranges can be resolved to the logging    *)
 (* resolution (1e-12 relative), not to single ulps.                        *)
 (***************************************************************************)
-EXTENDS Prod
+EXTENDS Prod, Ranges
 
 Prop == Scope.prop
-Res(q) == QMul(QPow10Neg(12), QMax(QOne, QAbs(q)))
-InQ(o, lo, hi) == QLe(QSub(lo, Res(lo)), OQ(o)) /\ QLe(OQ(o), QAdd(hi, Res(hi)))
-MinusOne == QInt(-1)
-
-LN199 == FLn(FFromInt(199))
 Positive == \A i \in 1..Len(hist) : hist[i] > 0
 
 (* the sibling configuration (same window, over Echo) of another kind in this scope, 0 if absent *)
@@ -30,22 +25,9 @@ LeSib(o, kind) == LET s == SibObs(kind) IN ~OIsSome(s) \/ QLe(OQ(o), QAdd(OQ(s),
 GeSib(o, kind) == LET s == SibObs(kind) IN ~OIsSome(s) \/ QLe(QSub(OQ(s), Res(OQ(s))), OQ(o))
 
 RangeOK(o) ==
-    LET k == Cfg.k IN
-    CASE k = "Rsi" -> InQ(o, QZero, QInt(100))
-      [] k \in {"MyRSI", "HLNormalizer", "CorrelationTrendIndicator", "NoiseEliminationTechnology", "Tanh",
-                "PolarizedFractalEfficiency"} -> InQ(o, MinusOne, QOne)
-      [] k \in {"LaguerreRSI", "BinaryEntropy"} -> InQ(o, QZero, QOne)
-      [] k = "EhlersFisherTransform" -> WCmp(WAbs(OF(o)), WAdd(LN199, WPow10(9))) <= 0
-      [] k \in {"WelfordOnline", "WelfordRolling"} -> OSign(o) >= 0
-      [] k = "Vsct" -> QLe(QSq(OQ(o)), QAdd(QFrac((Cfg.n - 1) * (Cfg.n - 1), Cfg.n), QPow10Neg(9)))
-      [] k = "Min" -> LeSib(o, "Sma") /\ LeSib(o, "Alma") /\ LeSib(o, "Echo") /\ LeSib(o, "Max")
-      [] k = "Max" -> GeSib(o, "Sma") /\ GeSib(o, "Alma") /\ GeSib(o, "Echo") /\ GeSib(o, "Min")
-      [] k = "GTE" -> QLe(ParamQ(Cfg.v), OQ(o))
-      [] k = "LTE" -> QLe(OQ(o), ParamQ(Cfg.v))
-      [] k = "Drawdown" -> ~Positive \/ (InQ(o, QZero, QOne) /\ QLt(OQ(o), QOne)
-                                         /\ (~OIsSome(ObsPrev) \/ QLe(OQ(ObsPrev), OQ(o))))
-      [] k = "CenterOfGravity" -> ~Positive \/ QLe(QAbs(OQ(o)), QAdd(QFrac(Cfg.n - 1, 2), Res(QInt(Cfg.n))))
-      [] OTHER -> TRUE
+    CASE Cfg.k = "Min" -> LeSib(o, "Sma") /\ LeSib(o, "Alma") /\ LeSib(o, "Echo") /\ LeSib(o, "Max")
+      [] Cfg.k = "Max" -> GeSib(o, "Sma") /\ GeSib(o, "Alma") /\ GeSib(o, "Echo") /\ GeSib(o, "Min")
+      [] OTHER -> RangeOf(Cfg, o, ObsPrev, Positive)
 
 (* known finding (DESIGN.md section 6 #14): the PFE formula that C11 fixes is itself not confined to [-1,1]:
    the chord term sqrt(dx^2 + N^2) can exceed the (N-2)-segment path.  A PFE observation outside the
